@@ -6,8 +6,21 @@ From SV Require Import C08.Syntax C08.Model C08.ProofsMono C08.Proofs.
 From SVG Require Import PrecTable.
 
 (* the reference printer round-trips *)
-Lemma suff_node_need e : suff_node need e = true.
-Proof. unfold suff_node. cbn [forallb sides]. repeat rewrite Bool.implb_same. reflexivity. Qed.
+Lemma ends_field_ref e : ends_field dec_ref e = ends_ref e.
+Proof.
+  induction e; cbn [ends_field ends_ref]; try reflexivity.
+  - rewrite IHe. unfold dec_ref. cbn [need_level]. rewrite orb_false_r. reflexivity.
+  - rewrite IHe2. unfold dec_ref. cbn [need_level]. rewrite orb_false_r. reflexivity.
+  - rewrite IHe. unfold dec_ref. cbn [need_level orb negb andb]. reflexivity.
+Qed.
+
+Lemma need_dec_ref e s : need dec_ref e s = dec_ref e s.
+Proof.
+  unfold need, dec_ref, need_lt. destruct e, s; try reflexivity. rewrite ends_field_ref. reflexivity.
+Qed.
+
+Lemma suff_node_need e : suff_node dec_ref e = true.
+Proof. unfold suff_node. cbn [forallb sides]. rewrite !need_dec_ref. repeat rewrite Bool.implb_same. reflexivity. Qed.
 
 Lemma all_nodes_true P e : (forall x, P x = true) -> all_nodes P e = true.
 Proof. intros HP. induction e; cbn [all_nodes]; rewrite ?HP, ?IHe, ?IHe1, ?IHe2, ?IHe3; reflexivity. Qed.
@@ -31,23 +44,32 @@ Qed.
 Theorem impl_ideal e : agree e = true -> impl e = pr e.
 Proof. intros H. symmetry. apply gp_ext. exact H. Qed.
 
-Lemma all_nodes_impl (P Q : expr -> bool) e : (forall x, P x = true -> Q x = true) ->
-  all_nodes P e = true -> all_nodes Q e = true.
-Proof.
-  intros HPQ. induction e; cbn [all_nodes]; rewrite ?andb_true_iff; intros H;
-    repeat match goal with H : _ /\ _ |- _ => destruct H end; repeat split; auto.
-Qed.
-
-Theorem agree_safe e : agree e = true -> safe e = true.
-Proof.
-  apply all_nodes_impl. intros x. unfold agree_node, suff_node. cbn [forallb sides].
-  rewrite !andb_true_iff. intros H. repeat match goal with H : _ /\ _ |- _ => destruct H end.
-  repeat match goal with H : Bool.eqb _ _ = true |- _ => apply eqb_prop in H; rewrite H; clear H end.
-  rewrite !Bool.implb_same. tauto.
-Qed.
-
 (* ---- node-level characterisation: a needed parenthesis is missing iff the node is K1, K2 or K3 *)
-Lemma node_char e : suff_node dec_impl e = negb (known_node e).
+Definition suff_node_level (dec : expr -> side -> bool) (e : expr) : bool :=
+  forallb (fun s => implb (need_level e s) (dec e s)) sides.
+Definition lt_ok (dec : expr -> side -> bool) (e : expr) : bool :=
+  match e with
+  | Bin o a _ => implb (is_lt o && ends_field dec a) (dec e SLeft)
+  | _ => true
+  end.
+
+Lemma implb_orb_l x y d : implb (x || y) d = implb x d && implb y d.
+Proof. destruct x, y, d; reflexivity. Qed.
+
+Lemma suff_node_split dec e : suff_node dec e = suff_node_level dec e && lt_ok dec e.
+Proof.
+  unfold suff_node, suff_node_level, lt_ok, need. cbn [forallb sides]. rewrite !implb_orb_l.
+  destruct e; cbn [need_lt implb]; rewrite ?andb_true_r; try reflexivity.
+  generalize (implb (is_lt o && ends_field dec e1) (dec (Bin o e1 e2) SLeft)) as z.
+  generalize (implb (need_level (Bin o e1 e2) SBase) (dec (Bin o e1 e2) SBase)) as a.
+  generalize (implb (need_level (Bin o e1 e2) SArg) (dec (Bin o e1 e2) SArg)) as b.
+  generalize (implb (need_level (Bin o e1 e2) SLeft) (dec (Bin o e1 e2) SLeft)) as c.
+  generalize (implb (need_level (Bin o e1 e2) SRight) (dec (Bin o e1 e2) SRight)) as d.
+  generalize (implb (need_level (Bin o e1 e2) SBody) (dec (Bin o e1 e2) SBody)) as f.
+  intros [] [] [] [] [] []; reflexivity.
+Qed.
+
+Lemma node_char_level e : suff_node_level dec_impl e = negb (k1 e || k2 e || k3 e).
 Proof.
   destruct e as [l n|a f|a x|a|u a|o a b|c a b|s p b|x b]; try reflexivity.
   - destruct a as [| | | | |oa ? ?| | |]; try reflexivity; destruct oa; reflexivity.
@@ -55,6 +77,19 @@ Proof.
   - destruct u; destruct a as [| | | | |oa ? ?| | |]; try reflexivity; destruct oa; reflexivity.
   - destruct a as [[]| | | | |oa ? ?| | |]; destruct b as [[]| | | | |ob ? ?| | |];
       try destruct oa; try destruct ob; destruct o; reflexivity.
+Qed.
+
+Lemma node_char_lt e : lt_ok dec_impl e = negb (k6 e).
+Proof.
+  destruct e as [l n|a f|a x|a|u a|o a b|c a b|s p b|x b]; try reflexivity.
+  unfold lt_ok, k6. destruct o; try reflexivity. cbn [is_lt andb].
+  destruct (ends_field dec_impl a), (dec_impl (Bin Lt a b) SLeft); reflexivity.
+Qed.
+
+Lemma node_char e : suff_node dec_impl e = negb (known_node e).
+Proof.
+  rewrite suff_node_split, node_char_level, node_char_lt. unfold known_node.
+  destruct (k1 e || k2 e || k3 e), (k6 e); reflexivity.
 Qed.
 
 Lemma all_any P e : all_nodes (fun x => negb (P x)) e = negb (any_node P e).
@@ -118,6 +153,17 @@ Proof. repeat split; vm_compute; reflexivity. Qed.
 Lemma K3_witness_right : k3 (Bin Concat xa (Bin Mul xb xc)) = true /\
   parse_expr 60 (impl (Bin Concat xa (Bin Mul xb xc))) = Some (Bin Mul (Bin Concat xa xb) xc).
 Proof. split; vm_compute; reflexivity. Qed.
+
+Lemma K6_witness : known_C08 (Bin Lt (Field xa 1) xb) = true /\ k6 (Bin Lt (Field xa 1) xb) = true /\
+  forall fuel, parse_expr fuel (impl (Bin Lt (Field xa 1) xb)) = None.
+Proof.
+  split; [vm_compute; reflexivity|]. split; [vm_compute; reflexivity|].
+  intros fuel. unfold parse_expr.
+  destruct (go fuel (MLevel 0) (impl (Bin Lt (Field xa 1) xb))) as [[e r]|] eqn:E; [|reflexivity].
+  exfalso. pose proof (go_mono _ _ _ _ E (fuel + 30) ltac:(lia)) as E'. clear E.
+  revert E'. generalize (fuel + 30). intros n.
+  do 16 (destruct n as [|n]; [discriminate|]). vm_compute. discriminate.
+Qed.
 
 (* ---- the answer of the parser does not depend on the fuel *)
 Lemma parse_expr_mono f f' ts e : parse_expr f ts = Some e -> f <= f' -> parse_expr f' ts = Some e.
